@@ -4,7 +4,7 @@
 //! (Trace_Csv.tla) decides whether that is what the row says.  Also re-reads the shipped
 //! registry file and compares it with an independent parse.
 
-use crate::replay_csv::{read_file, row_json_real, strip_term};
+use crate::replay_csv::{protocol_check, read_file, row_json_real, strip_term};
 use crate::util::*;
 use precis_tools::PrecisDerivedProperty;
 use serde_json::{json, Value};
@@ -13,7 +13,8 @@ use std::path::PathBuf;
 use std::str::FromStr;
 
 const NAMES: [&str; 7] = ["PVALID", "FREE_PVAL", "CONTEXTJ", "CONTEXTO", "DISALLOWED", "ID_DIS", "UNASSIGNED"];
-const WORDS: [&str; 12] = ["LATIN", "SMALL LETTER", "a", "CJK UNIFIED IDEOGRAPH-4E00", "<control>", "é", "日本", "x-y", "..", "or", "PVALID", "\u{1f600}"];
+const WORDS: [&str; 16] = ["LATIN", "SMALL LETTER", "a", "CJK UNIFIED IDEOGRAPH-4E00", "<control>", "é", "日本", "x-y", "..", "or", "PVALID", "\u{1f600}",
+                           "\"", "\"QUOTED\"", "\"OPEN", "'"];
 
 fn hex_tok(rng: &mut Rng, cp: u32) -> String {
     match rng.below(3) {
@@ -242,7 +243,7 @@ pub fn main(args: &[String]) {
         lens.extend(4060..4110);
         lens.extend(8160..8200);
         lens.extend([32767, 32768, 32769]);
-        let fillers: [&str; 5] = ["x", "\u{e9}", "\u{65e5}", "\u{1f600}", "a, b"];
+        let fillers: [&str; 8] = ["x", "\u{e9}", "\u{65e5}", "\u{1f600}", "a, b", "\"q\" m", "\"open, ", "e\""];
         let (mut files, mut nrows, mut diffs) = (0u64, 0u64, 0u64);
         let mut first: Value = Value::Null;
         for term in ["\n", "\r\n"] {
@@ -284,6 +285,14 @@ pub fn main(args: &[String]) {
                 nrows += exp.len() as u64;
                 let items = actual.as_array().cloned().unwrap_or_default();
                 let mut d = 0u64;
+                if fi < 2 && items.len() == exp.len() {
+                    if let Some(pc) = protocol_check(&path, &items) {
+                        d += 1;
+                        if first.is_null() {
+                            first = json!({"file": files + 1, "iterator_protocol": pc});
+                        }
+                    }
+                }
                 for (i, e) in exp.iter().enumerate() {
                     if items.get(i) != Some(e) {
                         d += 1;
